@@ -7,7 +7,10 @@ addresses); each host imports Scenic once and forks one child per sub-variant (c
 order of the WeightedAcceptanceChecker, one by one / generateBatch / fresh checker per scene / BasicChecker /
 reversed order / a checker consuming the global generators, amount of randomness the requirement helper
 consumes); the canonical dumps must be bit-identical, and the dependency tuple, the order in which specifier
-resolution evaluated the user properties and the order of random draws must equal the extracted model's."""
+resolution evaluated the user properties and the order of random draws must equal the extracted model's.
+Round 3: REGION programs (harness/c15_regions.py: every region kind with its own sampler, through `new Object in/on R`,
+`new Point in R`, `visible`) and a STATIC GUARD (harness/c15_static.py: `ast` scan of $VERIF_REPO/src/scenic for unseeded /
+entropy-seeded generators and OS-entropy reads, violation kind `unseeded-rng`)."""
 import concurrent.futures as cf
 import json
 import os
@@ -15,6 +18,8 @@ import sys
 
 sys.path.insert(0, os.path.dirname(os.path.abspath(__file__)))
 import common
+import c15_regions
+import c15_static
 from common import Check
 
 PID = "C15"
@@ -355,7 +360,15 @@ def main():
                      "sub-variant children (clock jitter, sequential / generateBatch / fresh checker / BasicChecker / reversed / RNG-consuming "
                      "checker, burn amount 0-3), 6 scenes each + a DummySimulator run; a case is non-trivial when at least one scene needed "
                      "more than one iteration and (two or more random values are referenced only from requirements, or a property default "
-                     "needs two or more properties, or the container is non-convex)")
+                     "needs two or more properties, or the container is non-convex); (region) 3 region kinds per program dealt "
+                     "round-robin from " + str(len(c15_regions.KIND_NAMES)) + " kinds (voxel box/sphere/hollow, mesh box/sphere/hollow/custom incl. rotated, "
+                     "off-origin and random-parameter ones, mesh surface, polyline, path, point set, grid, polygon, circle, sector, rectangle, "
+                     "view / visible / not visible regions, intersections / differences / unions of flat and of volume regions, workspace), "
+                     "1-2 instances per region (`new Point in`, `new Object in`, `new Object on`, `new OrientedPoint on`; Point positions and "
+                     "headings observed through params) + a requirement rejecting 30-60 % of the candidates; non-trivial when the 6 scenes "
+                     "of a run are pairwise different (positions really sampled). Static guard: every .py file of src/scenic is scanned with "
+                     "`ast` for generator constructions / re-seedings without a seed, with seed None or with a clock/pid-derived seed, and for "
+                     "os.urandom / SystemRandom / secrets / uuid1 / uuid4 (allow-list keyed by file, enclosing function and call text)")
     import time
     timing = c.cov.setdefault("timing_s", {})
     t0 = time.time()
@@ -366,12 +379,39 @@ def main():
     timing["proofs+extraction"] = round(time.time() - t0, 1)
     quick = c.tier == "quick"
     rng = c.rng
+    # ---- static guard (no scenic import; the working tree under common.REPO)
+    if not os.environ.get("VERIF_C15_NOSTATIC"):      # development aid: verify the dynamic route on its own
+        t1 = time.time()
+        nbad, ngood, _ = c15_static.selftest()
+        if (nbad, ngood) != (16, 0):
+            c.violation("harness", "the static guard's self-test no longer flags exactly the 16 planted entropy uses",
+                        dict(flagged_bad=nbad, flagged_good=ngood), no_input=True)
+        sviol, sallowed, sseeded, nfiles, serrors = c15_static.scan_tree(common.REPO)
+        c.hist("static:files-scanned", nfiles)
+        c.hist("static:seeded-private-generators", len(sseeded))
+        c.hist("static:allow-listed-call-sites", len(sallowed))
+        c.cov["static_guard"] = dict(files=nfiles, seeded_generators=sseeded, allowed=[f"{v['file']}:{v['function']}:{v['call']}" for v in sallowed],
+                                     allow_list={"|".join(k): r for k, r in c15_static.ALLOW.items()}, skipped=c15_static.SKIP, unparsable=serrors)
+        if nfiles < 20:
+            c.violation("harness", "static guard found fewer than 20 source files under src/scenic", dict(repo=common.REPO, files=nfiles), no_input=True)
+        for e in serrors:
+            c.violation("harness", "static guard could not parse a source file", dict(file=e), no_input=True)
+        for v in sviol:
+            c.count(("static", v["file"], v["function"], v["call"]), nontrivial=True)
+            c.violation("unseeded-rng", f"src/scenic/{v['file']}:{v['line']} in {v['function']}: `{v['source']}` -- {v['rule']}: scenes that reach "
+                        "this code are not a function of (program, options, seed)", dict(static=True, site=f"src/scenic/{v['file']}:{v['line']}", **v))
+        timing["static-guard"] = round(time.time() - t1, 1)
+        if c.replay and json.load(open(c.replay)).get("case", {}).get("static"):
+            c.finish()
     nprog, nseeds, nhosts, npersub, nshards = (18, 2, 3, 4, 5) if quick else (72, 2, 8, 3, 8)
     nprog = int(os.environ.get("VERIF_C15_NPROG", nprog))   # development aid (self-tests on a loaded machine)
+    nregion = int(os.environ.get("VERIF_C15_NREGION", 8 if quick else 24))
     workers = min(int(os.environ.get("VERIF_WORKERS", 16)), common.NCPU)
     progs = [f2_witness(), spec_witness()][:nprog]
     for i in range(nprog - len(progs)):
         progs.append(gen_class_program(rng, i) if i % 5 in (1, 3) else gen_program(rng, i, geom=(i % 5 == 4)))
+    for i, ks in enumerate(c15_regions.deal_kinds(rng, nregion)):
+        progs.append(c15_regions.gen_region_program(rng, i, ks, hi(0)))
     cases = [(p, rng.randint(0, 10 ** 6)) for p in progs for _ in range(nseeds)]
     if c.replay:
         body = json.load(open(c.replay))
@@ -400,7 +440,7 @@ def main():
         for ci in idx:
             p, seed = cases[ci]
             tasks.append(dict(name=p["name"], src=p["src"], names=p["names"], uprops=p.get("uprops", []), seed=seed, nscenes=6,
-                              simulate=True, steps=4, maxIterations=3000, subs=subs_of(h)))
+                              simulate=True, steps=4, maxIterations=400 if p.get("kind") == "region" else 3000, subs=subs_of(h)))
         try:
             th = time.time()
             r = common.run_impl("impl_c15.py", dict(tasks=tasks), timeout=900 if quick else 2400, hashseed=hs,
@@ -458,7 +498,13 @@ def main():
         for ch in [n[1] for n in md["nodes"]] + [md["params"]]:
             req_only.difference_update(ch)
         rejected = any(i and i > 1 for i in its)
-        c.count((p["src"], seed), nontrivial=(rejected and (len(req_only) >= 2 or p.get("multi", 0) >= 1 or p["kind"] == "geom")))
+        if p["kind"] == "region":
+            distinct = len({json.dumps(s["scene"], sort_keys=True) for s in base["scenes"]})
+            c.count((p["src"], seed), nontrivial=(distinct == len(base["scenes"]) >= 2))
+            for k in p.get("region_kinds", []):
+                c.hist("region:" + k)
+        else:
+            c.count((p["src"], seed), nontrivial=(rejected and (len(req_only) >= 2 or p.get("multi", 0) >= 1 or p["kind"] == "geom")))
         c.cov["evaluations"] += len(grp) - 1
         c.cov["traces_validated_against_impl"] += len(grp)
         c.hist("kind:" + p["kind"])
@@ -539,6 +585,9 @@ def main():
         "the other sub-variants are forked children of those interpreters (fork after importing scenic, before compiling)",
         "specifier resolution is modelled without modifying specifiers; the model is compared on user-defined properties only",
         "extraction via ExtrOcamlBasic only; OCaml compiler; 50-line driver",
+        "static guard: syntactic (ast) over src/scenic/**/*.py; names are resolved through the file's own imports only, so a generator "
+        "obtained through an alias defined in another module, getattr/importlib, or a C extension is not seen statically (the region / "
+        "geom / flat programs cover those dynamically where the code is reached)",
     ]
     c.finish()
 
